@@ -455,11 +455,21 @@ Example concurrent_sets_example :
   consistent None [goerr_of (Some 1011); goerr_of (Some 1008); None; goerr_of (Some 1018)] = true.
 Proof. reflexivity. Qed.
 
-(* the judgement of the check on observed Set / Load histories is implied by the model reproducing
-   them, and histories computed by the model are accepted (it is not vacuous) *)
-Theorem ae_agrees_prop : forall ops st, ae_agrees st ops = true -> ae_prop st ops = true.
+(* the judgement of the check on observed Set / Load histories (the contract mr relies on: Load
+   returns, by identity, one of the non-nil values Set so far - the one after a single Set - and nil
+   only if there is none; Set(nil) and Sets of the stored type never panic) is implied by the model
+   reproducing them; it pins the value after a single Set; histories computed by the model are
+   accepted *)
+Theorem ae_agrees_prop : forall ops, ae_agrees None ops = true -> ae_prop None [] ops = true.
 Proof. exact ae_agrees_prop_l. Qed.
 Print Assumptions ae_agrees_prop.
+Theorem ae_prop_single_set : forall d o,
+  ae_prop None [] [ASet (Some d) false; ALoad o] = true -> o = Some d.
+Proof. exact ProofsA.ae_prop_single_set. Qed.
+Print Assumptions ae_prop_single_set.
+Example ae_prop_rejects_dropped_typed_nil :
+  ae_prop None [] [ASet (goerr_of (Some 1011%Z)) false; ALoad None] = false.
+Proof. reflexivity. Qed.
 Theorem model_history_accepted : forall vs st, ae_agrees st (seq_history st vs) = true.
 Proof. exact model_history_accepted_l. Qed.
 Print Assumptions model_history_accepted.
